@@ -74,14 +74,16 @@ def rnd_coeffs(rng, units, scale):
     return [rng.choice([0, 1, 1, 2, 3, 5, 7]) * u * scale for u in units]
 
 
-def gen_species(rng, nel, exact, allow_neutral=True):
-    ns = rng.choice([1, 1, 2, 2, 3, 3, 4, 5, 6])
-    atomic_numbers = ATOMIC_NUMBERS
+TINY = 5e-324            # smallest subnormal double
+
+
+def gen_species(rng, nel, exact, allow_neutral=True, ns=None):
+    ns = ns or rng.choice([1, 1, 2, 2, 3, 3, 4, 5, 6] * 5 + [12])
     keys = set()
     sps = []
     while len(sps) < ns:
         el = rng.randrange(nel)
-        zmax = atomic_numbers[el]
+        zmax = ATOMIC_NUMBERS[el]
         if allow_neutral and rng.random() < 0.15:
             ch = 0
         else:
@@ -89,12 +91,7 @@ def gen_species(rng, nel, exact, allow_neutral=True):
         if (el, ch) in keys:
             continue
         keys.add((el, ch))
-        vmax = rng.choice([0.0, 1e4, 1e5, 5e5])
-        sps.append({"el": el, "charge": ch,
-                    "n0": 0.0 if rng.random() < 0.06 else rnd_float(rng, 1e15, 1e20, exact),
-                    "t0": rnd_float(rng, 1.0, 2e4, exact),
-                    "v0": [0.0 if vmax == 0 else (rng.uniform(-vmax, vmax) if not exact else float(round(rng.uniform(-vmax, vmax))))
-                           for _ in range(3)]})
+        sps.append(gen_one_species(rng, exact, el, ch))
     if not any(s["charge"] >= 1 for s in sps):
         sps[0]["charge"] = 1
         if len({(s["el"], s["charge"]) for s in sps}) < len(sps):
@@ -102,27 +99,95 @@ def gen_species(rng, nel, exact, allow_neutral=True):
     return sps
 
 
+def with_duplicates(rng, exact, sps):
+    """the list handed to the implementation: some (element, charge) keys occur twice; Composition keeps the
+    position of the first and the value of the last"""
+    raw = [dict(s) for s in sps]
+    for _ in range(rng.choice([1, 1, 2])):
+        if raw:
+            s = rng.choice(raw)
+            raw.insert(rng.randint(0, len(raw)), gen_one_species(rng, exact, s["el"], s["charge"]))
+    return raw
+
+
 def gen_beam(rng, exact):
-    cls = rng.choice(["inside"] * 10 + ["z<0", "z>length", "z=length", "z=0", "att=0"])
+    cls = rng.choice(["inside"] * 12 + ["z<0", "z>length", "z=length", "z=0", "att=0", "z=-0.0", "z=+tiny", "z=-tiny",
+                                        "z=length-ulp", "z=length+ulp", "att=-0.0"])
     length = rng.choice([0.5, 1.0, 2.0, 3.0])
     bp = rnd_point(rng)
-    if cls == "inside":
-        bp[2] = rng.randint(1, 15) / 16.0 * length
-    elif cls == "z<0":
-        bp[2] = -rng.randint(1, 8) / 16.0
-    elif cls == "z>length":
-        bp[2] = length + rng.randint(1, 8) / 16.0
-    elif cls == "z=length":
-        bp[2] = length
-    elif cls == "z=0":
-        bp[2] = 0.0
+    bp[2] = {"inside": rng.randint(1, 15) / 16.0 * length, "z<0": -rng.randint(1, 8) / 16.0,
+             "z>length": length + rng.randint(1, 8) / 16.0, "z=length": length, "z=0": 0.0, "att=0": length / 2,
+             "att=-0.0": length / 4, "z=-0.0": -0.0, "z=+tiny": TINY, "z=-tiny": -TINY,
+             "z=length-ulp": math.nextafter(length, 0.0), "z=length+ulp": math.nextafter(length, 9.0)}[cls]
     d = [rng.uniform(-1, 1) if not exact else rng.randint(-8, 8) / 8.0 for _ in range(3)]
     if sum(abs(c) for c in d) < 0.2:
         d[2] = 1.0
-    beam = {"energy": rnd_float(rng, 2e3, 1.2e5, exact), "length": length,
-            "att0": 0.0 if cls == "att=0" else rnd_float(rng, 1e13, 1e17, exact),
-            "dir": d, "element": rng.choice([0, 1])}
+    beam = {"energy": 0.0 if rng.random() < 0.03 else rnd_float(rng, 2e3, 1.2e5, exact), "length": length,
+            "att0": 0.0 if cls == "att=0" else -0.0 if cls == "att=-0.0" else rnd_float(rng, 1e13, 1e17, exact),
+            "dir": d, "element": rng.choice([0, 1]), "form": rng.choice(["float", "float", "int", "np"])}
     return beam, bp, cls
+
+
+def gen_labels(rng):
+    """donor metastable labels of the provider: 1 is the ground state wherever it stands; the other labels need
+    not be 2, 3, ... and come in any order"""
+    nm = rng.choice([1, 1, 2, 2, 3, 3, 4, 5])
+    ms = [1] + (list(range(2, nm + 1)) if rng.random() < 0.7 else sorted(rng.sample(range(2, 10), nm - 1)))
+    rng.shuffle(ms)
+    return ms
+
+
+def decorate(c, rng, kind):
+    """argument forms and configuration routes that must not change the result"""
+    for s in (c.get("species_raw") or c["species"]):
+        if rng.random() < 0.25:
+            s["form"] = rng.choice(["const", "const_np", "const_int"])
+        if rng.random() < 0.15:
+            s["charge_np"] = True
+    if c.get("species_raw"):
+        c["species"] = impl_effective(c["species_raw"])
+    if rng.random() < 0.15:
+        c["b_form"] = "const"
+    c["comp_form"] = rng.choice(["list", "list", "tuple", "gen"])
+    c["attach"] = rng.choice(["models", "models", "constructor"])
+    if kind in ("bes", "history") and rng.random() < 0.5:
+        c["bes_ratios"] = [rng.choice([0.25, 0.5, 1.0, 2.0, 0.56, 1.7]) for _ in range(4)]
+    if kind in ("cx", "history"):
+        r = rng.random()
+        if r < 0.2:
+            c["lineshape"] = "default"
+        elif r < 0.4:
+            c["ls_kwargs"] = True
+        if rng.random() < 0.2:
+            c["line_np"] = True
+
+
+def pow2(rng, lo, hi):
+    return 2.0 ** rng.randint(lo, hi)
+
+
+def apply_scale(c, rng, bes=False):
+    """multiply groups of inputs by powers of two over many decades (exact in double): the formulas are
+    covariant; ranges keep every product a normal double and every sqrt argument above 2^-24"""
+    kn, kt, kv, kb, ka, ke, kd, kr = (pow2(rng, -60, 40), pow2(rng, -8, 8), pow2(rng, -10, 1), pow2(rng, -10, 4),
+                                      pow2(rng, -40, 40), pow2(rng, -6, 6), pow2(rng, -8, 8), pow2(rng, -40, 40))
+    if bes:
+        # the beam-emission total is read back through the real Stark multiplet from one bin 656 +- 200 nm: keep the
+        # Doppler shift and 4 x Stark splitting (both proportional to the beam speed, the latter also to |B|) inside it
+        ke, kb = min(ke, 4.0), min(kb, 1.0)
+    for s in c["species"] + (c.get("species_raw") or []):
+        s["n0"], s["t0"], s["v0"] = s["n0"] * kn, s["t0"] * kt, [v * kv for v in s["v0"]]
+    c["b0"] = [v * kb for v in c["b0"]]
+    if "beam" in c:
+        c["beam"]["att0"] *= ka
+        c["beam"]["energy"] *= ke
+        if "dir" in c["beam"]:
+            c["beam"]["dir"] = [v * kd for v in c["beam"]["dir"]]
+    for r in c.get("rates", []) + (c.get("prov") or {}).get("rates", []):
+        r["c"] = [v * kr for v in r["c"]]
+    for pc in c.get("pecs", []):
+        pc[:] = [v * kr for v in pc]
+    c["scaled"] = True
 
 
 def gen_case(rng, kind, nel):
@@ -132,59 +197,87 @@ def gen_case(rng, kind, nel):
             "plasma_point": rnd_point(rng)}
     if rng.random() < 0.05:
         case["b0"] = [0.0, 0.0, 0.0]
+    if kind in ("plasma", "bes") and rng.random() < (0.25 if kind == "plasma" else 0.06):
+        # no ions / ions of zero density / nothing at all: z_effective raises ValueError, beam emission is 0
+        r = rng.random()
+        for s in case["species"]:
+            if r < 0.4:
+                s["charge"] = 0
+            elif rng.random() < 0.5:
+                s["charge"] = 0
+            else:
+                s["n0"] = 0.0 if kind == "plasma" else s["n0"]
+        case["species"] = [] if r > 0.85 else impl_effective(case["species"])
+        case["no_ion_class"] = True
+    if rng.random() < 0.08 and case["species"]:
+        case["species_raw"] = with_duplicates(rng, exact, case["species"])
+        case["species"] = impl_effective(case["species_raw"])
     if kind == "plasma":
-        if rng.random() < 0.25:          # no ions / ions of zero density: ValueError expected
-            for s in case["species"]:
-                if rng.random() < 0.5:
-                    s["charge"] = 0
-                else:
-                    s["n0"] = 0.0
-            seen, keep = set(), []
-            for s in case["species"]:
-                if (s["el"], s["charge"]) not in seen:
-                    seen.add((s["el"], s["charge"]))
-                    keep.append(s)
-            case["species"] = keep
+        decorate(case, rng, kind)
+        if rng.random() < 0.3:
+            apply_scale(case, rng)
         return case
     case["beam"], case["beam_point"], case["beam_class"] = gen_beam(rng, exact)
-    nsp = len(case["species"])
     if kind == "bes":
         case["pecs"] = [[0.0] * 4 if s["charge"] == 0 else rnd_coeffs(rng, UNIT3, SCALE_PEC) for s in case["species"]]
+        decorate(case, rng, kind)
+        if rng.random() < 0.3:
+            apply_scale(case, rng, bes=True)
         return case
+    decorate(case, rng, kind)
     ions = [s for s in case["species"] if s["charge"] >= 1]
     rs = rng.choice(ions)
     case["line"] = {"el": rs["el"], "charge": rs["charge"] - 1, "transition": [rng.randint(3, 12), 2]}
     r = rng.random()
     case["receiver_class"] = "present"
-    zat = [1, 1, 1, 2, 3, 4, 5, 6, 7, 8, 10, 18][rs["el"]]
+    zat = ATOMIC_NUMBERS[rs["el"]]
     opts = [c for c in (rs["charge"] - 2, rs["charge"]) if 0 <= c <= zat - 1]
+    others = [s for s in ions if s is not rs and s["n0"] > 0]
     if r < 0.04 and opts:
         # receiver ion absent: the species one charge lower/higher is there instead
         case["line"]["charge"] = rng.choice(opts)
         if not any(s["el"] == rs["el"] and s["charge"] == case["line"]["charge"] + 1 for s in case["species"]):
             case["receiver_class"] = "absent"
-    elif r < 0.10:
-        rs["n0"] = 0.0
+    elif r < 0.09:
+        rs["n0"] = rng.choice([0.0, -0.0])
         case["receiver_class"] = "zero density"
-    elif r < 0.13:
-        rs["t0"] = 0.0
+    elif r < 0.11 and others and "species_raw" not in case:
+        rs["n0"] = TINY                       # passes the == 0 guard; the product underflows
+        case["receiver_class"] = "subnormal density"
+    elif r < 0.14:
+        rs["t0"] = rng.choice([0.0, -0.0])
         case["receiver_class"] = "zero temperature"
-    nm = rng.choice([1, 1, 2, 2, 3, 3, 4, 5])
-    ms = list(range(1, nm + 1))
-    rng.shuffle(ms)
+    elif r < 0.155 and case.get("lineshape") != "default":
+        rs["t0"] = TINY
+        case["receiver_class"] = "subnormal temperature"
+    if "species_raw" in case:               # keep the raw list consistent with the receiver edits
+        for t in case["species_raw"]:
+            if (t["el"], t["charge"]) == (rs["el"], rs["charge"]):
+                t["n0"], t["t0"] = rs["n0"], rs["t0"]
+        case["species"] = impl_effective(case["species_raw"])
     case["rates"] = [{"m": m, "c": rnd_coeffs(rng, UNIT5, SCALE_CX),
                       "pop": [[0.0] * 4 if s["charge"] == 0 else rnd_coeffs(rng, UNIT3, 2.0 ** -3) for s in case["species"]]}
-                     for m in ms]
+                     for m in gen_labels(rng)]
+    if rng.random() < 0.3 and case["receiver_class"] not in ("subnormal density", "subnormal temperature"):
+        apply_scale(case, rng)
     return case
+
+
+def impl_effective(raw):
+    import c05_impl
+    return c05_impl.effective_species(raw)
 
 
 # ---------------------------------------------------------------------------------------------
 # histories: one scene, live models, mutations through the public API, an evaluation after each
 # ---------------------------------------------------------------------------------------------
-COMPOSITION_OPS = ["add_new", "assign", "set", "clear_readd"]
+COMPOSITION_OPS = ["add_new", "assign", "set", "clear_readd", "beam_plasma"]
 BEAM_OPS = ["beam_energy", "beam_element", "beam_temperature", "beam_length", "attenuator"]
 OTHER_OPS = ["atomic_data", "cx_line", "b_field", "electron"]
-ALL_OPS = ["none", "add_existing"] + COMPOSITION_OPS + BEAM_OPS + OTHER_OPS
+SAME_OPS = ["reassign_same", "models_reset"]
+REASSIGN = ["energy", "element", "length", "composition", "add_same", "line", "b_field", "atomic_data", "plasma"]
+GUARDS = ["receiver_density", "receiver_temperature", "ion_density", "attenuator", "length", "energy"]
+ALL_OPS = ["none", "add_existing"] + COMPOSITION_OPS + BEAM_OPS + OTHER_OPS + SAME_OPS
 
 
 def gen_one_species(rng, exact, el, ch, zero_prob=0.06):
@@ -205,10 +298,8 @@ def gen_new_key(rng, nel, keys, ionised=False):
 
 
 def gen_provider(rng):
-    nm = rng.choice([1, 2, 2, 3, 3, 4, 5])
-    ms = list(range(1, nm + 1))
-    rng.shuffle(ms)
-    return {"seed": rng.randrange(1 << 30), "rates": [{"m": m, "c": rnd_coeffs(rng, UNIT5, SCALE_CX)} for m in ms]}
+    scale = SCALE_CX * (pow2(rng, -40, 40) if rng.random() < 0.3 else 1.0)
+    return {"seed": rng.randrange(1 << 30), "rates": [{"m": m, "c": rnd_coeffs(rng, UNIT5, scale)} for m in gen_labels(rng)]}
 
 
 def gen_eval(rng, kind, exact, cfg, prev=None):
@@ -222,6 +313,9 @@ def gen_eval(rng, kind, exact, cfg, prev=None):
     d = [rng.uniform(-1, 1) if not exact else rng.randint(-8, 8) / 8.0 for _ in range(3)]
     if sum(abs(c) for c in d) < 0.2:
         d[2] = 1.0
+    if rng.random() < 0.3:
+        k = pow2(rng, -8, 8)
+        d = [c * k for c in d]
     return {"kind": kind, "plasma_point": rnd_point(rng), "beam_point": bp, "dir": d}
 
 
@@ -259,16 +353,26 @@ def gen_step(rng, nel, exact, cfg, op):
     elif op == "add_new":
         step["species"] = gen_one_species(rng, exact, *gen_new_key(rng, nel, set(keys)))
         cfg["species"].append(dict(step["species"]))
-    elif op in ("assign", "set", "clear_readd"):
+    elif op in ("assign", "set", "clear_readd", "beam_plasma"):
         step["species"] = mutate_species_list(rng, nel, exact, cfg)
+        step["comp_form"] = rng.choice(["list", "list", "tuple", "gen"])
+        if rng.random() < 0.2:
+            step["species_raw"] = with_duplicates(rng, exact, step["species"])
+            step["species"] = impl_effective(step["species_raw"])
         cfg["species"] = [dict(s) for s in step["species"]]
+    elif op == "reassign_same":
+        step["what"] = rng.choice(REASSIGN)
+    elif op == "models_reset":
+        step["reversed"] = rng.random() < 0.5
     elif op == "b_field":
         step["b0"] = [rng.uniform(-4, 4) if not exact else rng.randint(-16, 16) / 4.0 for _ in range(3)]
-        cfg["b0"] = list(step["b0"])
+        step["b_form"] = "const" if rng.random() < 0.25 else "fn"
+        cfg["b0"], cfg["b_form"] = list(step["b0"]), step["b_form"]
     elif op == "electron":
         step["ne"], step["te"] = rnd_float(rng, 1e18, 1e20, exact), rnd_float(rng, 10.0, 5e3, exact)
     elif op == "beam_energy":
         step["energy"] = rnd_float(rng, 2e3, 1.2e5, exact)
+        step["form"] = rng.choice(["float", "int", "np"])
         cfg["beam"]["energy"] = step["energy"]
     elif op == "beam_element":
         step["element"] = 1 - cfg["beam"]["element"]
@@ -295,29 +399,88 @@ def gen_step(rng, nel, exact, cfg, op):
     return step
 
 
+def gen_guard_cross(rng, nel, exact, cfg, ev):
+    """two steps on the same scene: a quantity that a guard of the code tests goes to zero (or -0.0, or across
+    the beam end) and comes back to a positive value; both models are evaluated at the SAME points after each"""
+    what = rng.choice(GUARDS)
+    keys = [(s["el"], s["charge"]) for s in cfg["species"]]
+    rkey = (cfg["line"]["el"], cfg["line"]["charge"] + 1)
+    zero = rng.choice([0.0, 0.0, -0.0])
+    steps = []
+    if what in ("receiver_density", "receiver_temperature", "ion_density"):
+        ions = [k for k in keys if k[1] >= 1]
+        key = rkey if (what != "ion_density" and rkey in keys) else rng.choice(ions)
+        cur = cfg["species"][keys.index(key)]
+        for phase in (0, 1):
+            sp = gen_one_species(rng, exact, key[0], key[1], zero_prob=0.0)
+            sp["v0"] = list(cur["v0"])
+            if phase == 0:
+                sp["t0" if what == "receiver_temperature" else "n0"] = zero
+            steps.append({"op": "add_existing", "species": sp})
+    elif what == "attenuator":
+        steps = [{"op": "attenuator", "att0": zero}, {"op": "attenuator", "att0": rnd_float(rng, 1e13, 1e17, exact)}]
+    elif what == "energy":
+        steps = [{"op": "beam_energy", "energy": 0.0, "form": rng.choice(["float", "int"])},
+                 {"op": "beam_energy", "energy": rnd_float(rng, 2e3, 1.2e5, exact), "form": "float"}]
+    else:
+        z, length = ev["beam_point"][2], cfg["beam"]["length"]
+        short = z / 2 if 0 < z <= length else length / 2
+        steps = [{"op": "beam_length", "length": short}, {"op": "beam_length", "length": length}]
+    out = []
+    for st in steps:
+        # record the step in cfg exactly as gen_step does
+        if st["op"] == "add_existing":
+            cfg["species"][keys.index((st["species"]["el"], st["species"]["charge"]))] = dict(st["species"])
+        elif st["op"] == "attenuator":
+            cfg["beam"]["att0"] = st["att0"]
+        elif st["op"] == "beam_energy":
+            cfg["beam"]["energy"] = st["energy"]
+        elif st["op"] == "beam_length":
+            cfg["beam"]["length"] = st["length"]
+        st["guard"] = what
+        st["evals"] = [dict(ev, kind="cx"), dict(ev, kind="bes")]
+        out.append(st)
+    return out
+
+
 def gen_history(rng, nel, nsteps):
     exact = rng.random() < 0.5
     sps = gen_species(rng, nel, exact)
-    ions = [s for s in sps if s["charge"] >= 1]
-    rs = rng.choice(ions)
     beam, _, _ = gen_beam(rng, exact)
     if beam["att0"] == 0.0:
         beam["att0"] = rnd_float(rng, 1e13, 1e17, exact)
+    if beam["energy"] == 0.0:
+        beam["energy"] = rnd_float(rng, 2e3, 1.2e5, exact)
     del beam["dir"]
     cfg = {"exact": exact, "species": sps, "b0": [rng.uniform(-4, 4) if not exact else rng.randint(-16, 16) / 4.0 for _ in range(3)],
-           "beam": beam, "line": {"el": rs["el"], "charge": rs["charge"] - 1, "transition": [rng.randint(3, 12), 2]},
-           "prov": gen_provider(rng)}
+           "beam": beam, "prov": gen_provider(rng)}
+    if rng.random() < 0.15:
+        cfg["species_raw"] = with_duplicates(rng, exact, cfg["species"])
+        cfg["species"] = impl_effective(cfg["species_raw"])
+    decorate(cfg, rng, "history")
+    if rng.random() < 0.3:
+        apply_scale(cfg, rng, bes=True)
+    rs = rng.choice([s for s in cfg["species"] if s["charge"] >= 1])
+    cfg["line"] = {"el": rs["el"], "charge": rs["charge"] - 1, "transition": [rng.randint(3, 12), 2]}
     hist = {"cfg": json.loads(json.dumps(cfg)), "steps": []}
-    # every history: both models evaluated first (caches populated), then one replacement of an existing species,
-    # one other composition route, one beam mutator, one of provider / line / field, and random further steps
-    ops = ["add_existing", rng.choice(COMPOSITION_OPS), rng.choice(BEAM_OPS), rng.choice(OTHER_OPS)]
-    ops += [rng.choice(ALL_OPS) for _ in range(max(0, nsteps - len(ops)))]
+    cfg.pop("species_raw", None)
+    # every history: both models evaluated first (caches populated), then a replacement of an existing species,
+    # one other composition route, one beam mutator, one of provider / line / field, a guard crossing, a re-assignment
+    # of an unchanged value, and random further steps
+    ops = ["add_existing", rng.choice(COMPOSITION_OPS), rng.choice(BEAM_OPS), rng.choice(OTHER_OPS), "guard_cross",
+           rng.choice(SAME_OPS)]
+    ops += [rng.choice(ALL_OPS + ["guard_cross"]) for _ in range(max(0, nsteps - len(ops)))]
     rng.shuffle(ops)
     prev = gen_eval(rng, "cx", exact, cfg)
-    hist["steps"].append({"op": "none", "evals": [prev, dict(prev, kind="bes")]})
+    hist["steps"].append({"op": "none", "evals": [prev, dict(prev, kind="bes"), dict(prev, kind="plasma")]})
     for op in ops:
+        if op == "guard_cross":
+            ev = gen_eval(rng, "cx", exact, cfg, prev)
+            hist["steps"] += gen_guard_cross(rng, nel, exact, cfg, ev)
+            prev = ev
+            continue
         step = gen_step(rng, nel, exact, cfg, op)
-        kinds = rng.choice([["cx"], ["bes"], ["cx", "bes"], ["cx", "bes"], ["cx", "plasma"], ["bes", "cx"]])
+        kinds = rng.choice([["cx"], ["bes"], ["cx", "bes"], ["cx", "bes"], ["cx", "plasma"], ["bes", "cx"], ["plasma", "bes"]])
         step["evals"] = []
         for kind in kinds:
             prev = gen_eval(rng, kind, exact, cfg, prev)
@@ -376,6 +539,11 @@ def log_consistency(case, out):
     bad = []
     if out.get("stale_species"):
         bad.append("rate objects of species %r were evaluated, which are not in the current composition" % (out["stale_species"],))
+    if "composition" in out:
+        v = out["composition"]
+        want = [[t["el"], t["charge"]] for t in case["species"]]
+        if v["keys"] != want or v["len"] != len(want) or not v["lookup_returns_member"]:
+            bad.append("composition container reports %r, expected keys %r in this order" % (v, want))
     if case["kind"] == "cx" and out["code"] == 1:
         cx = [l for l in log if l[0] == "cx"]
         if len({l[2] for l in cx}) > 1:
@@ -407,6 +575,85 @@ def log_consistency(case, out):
         if not inside and att:
             bad.append("attenuator sampled outside 0 <= z <= length")
     return bad
+
+
+# ---------------------------------------------------------------------------------------------
+# second-order call sites of the anchored files (expected outcomes recorded from the documented behaviour)
+# ---------------------------------------------------------------------------------------------
+API_COUNT = [0]
+
+
+def api_checks(impl):
+    from raysect.core import Point3D, Vector3D
+    from raysect.optical import Spectrum
+    from cherab.core import Plasma, Beam, Species, Maxwellian
+    from cherab.core.atomic import Line
+    from cherab.core.atomic import elements as el
+    from cherab.core.model import BeamCXLine, BeamEmissionLine
+    fails = []
+    API_COUNT[0] = 0
+
+    def expect(what, fn, exc=None, value=None):
+        API_COUNT[0] += 1
+        try:
+            got = fn()
+        except Exception as e:          # noqa: the exception class IS the observation here
+            if exc is None or not isinstance(e, exc):
+                fails.append("%s: raised %r, expected %s" % (what, e, exc.__name__ if exc else repr(value)))
+            return
+        if exc is not None:
+            fails.append("%s: returned %r, expected %s" % (what, got, exc.__name__))
+        elif got != value:
+            fails.append("%s: returned %r, expected %r" % (what, got, value))
+
+    mk = lambda e, z, n: Species(e, z, Maxwellian(n, 10.0, Vector3D(0, 0, 0), e.atomic_weight * impl.AMU))
+    p = Plasma()
+    comp = p.composition
+    expect("empty plasma: ion_density", lambda: p.ion_density(0, 0, 0), value=0.0)
+    expect("empty plasma: z_effective", lambda: p.z_effective(0, 0, 0), exc=ValueError)
+    expect("empty plasma: len(composition)", lambda: len(comp), value=0)
+    expect("composition.get of a missing species", lambda: comp.get(el.carbon, 6), exc=ValueError)
+    expect("composition[...] with a malformed key", lambda: comp[(el.carbon,)], exc=ValueError)
+    expect("composition.set with a non-Species entry", lambda: comp.set([1.0]), exc=TypeError)
+    expect("composition.add(None)", lambda: comp.add(None), exc=ValueError)
+    a, b, c = mk(el.carbon, 6, 1e18), mk(el.carbon, 6, 2e18), mk(el.deuterium, 1, 3e19)
+    comp.add(a)
+    comp.add(c)
+    comp.add(b)
+    expect("add of an existing key replaces", lambda: (len(comp), comp.get(el.carbon, 6) is b, comp[(el.deuterium, 1)] is c,
+                                                       [s.charge for s in comp]), value=(2, True, True, [6, 1]))
+    expect("after the replacement: ion_density", lambda: p.ion_density(0, 0, 0), value=2e18 + 3e19)
+    expect("neutral species only: z_effective", lambda: (comp.set([mk(el.deuterium, 0, 1e19)]), p.z_effective(0, 0, 0))[1], exc=ValueError)
+    comp.clear()
+    expect("composition.clear", lambda: (len(comp), list(comp)), value=(0, []))
+    # models that are not connected / wrongly configured
+    cvi = Line(el.carbon, 5, (8, 7))
+    pt, v, sp = Point3D(0, 0, 0.5), Vector3D(0, 0, 1), Spectrum(400, 700, 8)
+    expect("BeamCXLine with a line shape that is no LineShapeModel", lambda: BeamCXLine(cvi, lineshape=int), exc=TypeError)
+    expect("BeamCXLine(None)", lambda: BeamCXLine(None), exc=TypeError)
+    expect("BeamCXLine.line = None", lambda: setattr(BeamCXLine(cvi), "line", None), exc=TypeError)
+    expect("BeamCXLine without a beam", lambda: BeamCXLine(cvi).emission(pt, pt, v, v, sp), exc=RuntimeError)
+    expect("BeamEmissionLine without a beam", lambda: BeamEmissionLine(Line(el.deuterium, 0, (3, 2))).emission(pt, pt, v, v, sp),
+           exc=RuntimeError)
+    expect("BeamEmissionLine for a carbon line", lambda: BeamEmissionLine(cvi), exc=ValueError)
+    expect("BeamEmissionLine for Balmer-beta", lambda: BeamEmissionLine(Line(el.hydrogen, 0, (4, 2))), exc=ValueError)
+    for iso in (el.hydrogen, el.deuterium, el.tritium):
+        expect("BeamEmissionLine accepts Balmer-alpha of %s" % iso.name,
+               lambda iso=iso: BeamEmissionLine(Line(iso, 0, (3, 2))).line.element is iso, value=True)
+    expect("BeamEmissionLine.line = carbon line", lambda: setattr(BeamEmissionLine(Line(el.deuterium, 0, (3, 2))), "line", cvi),
+           exc=ValueError)
+    # beam element different from the line's isotope: TypeError when the cache is populated
+    case = {"kind": "bes", "species": [{"el": 1, "charge": 1, "n0": 1e19, "t0": 100.0, "v0": [0.0, 0.0, 0.0]}], "b0": [0.0, 1.0, 0.0],
+            "plasma_point": [0.5, 0.5, 0.5], "beam_point": [0.0, 0.0, 0.5],
+            "beam": {"energy": 5e4, "length": 1.0, "att0": 1e15, "dir": [0.0, 0.0, 1.0], "element": 1}, "pecs": [[1e-35, 0, 0, 0]]}
+    log = []
+    plasma = impl.build_plasma(case, log)
+    beam = impl.build_beam(case, plasma, impl.StubData(case, log), log)
+    wrong = BeamEmissionLine(Line(el.hydrogen, 0, (3, 2)))
+    beam.models = [wrong]
+    expect("BeamEmissionLine of hydrogen on a deuterium beam", lambda: wrong.emission(pt, pt, v, v, sp), exc=TypeError)
+    expect("Beam.density without an attenuator", lambda: Beam().density(0, 0, 0.5), exc=ValueError)
+    return fails
 
 
 # ---------------------------------------------------------------------------------------------
@@ -452,7 +699,7 @@ def run(ctx):
     rng = ctx.rng
     nel = len(impl.ELEMENTS)
     n_cx, n_bes, n_pl = (80, 30, 20) if ctx.quick else (4000, 1400, 600)
-    n_hist, n_steps = (14, 5) if ctx.quick else (150, 8)
+    n_hist, n_steps = (10, 6) if ctx.quick else (150, 9)
     cases = []
     for p in sorted(glob.glob(os.path.join(VERIF, "corpus", "C05", "*.json"))):
         if not os.path.basename(p).startswith("history_"):
@@ -477,7 +724,7 @@ def run(ctx):
         cases += [gen_case(rng, "plasma", nel) for _ in range(n_pl)]
         histories += [gen_history(rng, nel, n_steps) for _ in range(n_hist)]
 
-    outs, texts, search_fails, log_fails = [], [], [], []
+    outs, texts, search_fails, log_fails, fresh_fails = [], [], [], [], []
 
     def record(i, case, out):
         outs.append(out)
@@ -498,6 +745,15 @@ def run(ctx):
             case["_history"], case["_step"], case["_op"] = hi, k, hist["steps"][k]["op"]
             cases.append(case)
             record(len(cases) - 1, case, out)
+            # the same configuration on a freshly built scene must give bitwise the same result
+            fresh = impl.run_case({k: v for k, v in case.items() if not k.startswith("_")})
+            same = (fresh["code"] == out["code"] and fresh["radiance"] == out["radiance"]
+                    and fresh.get("zeff") == out.get("zeff") and fresh.get("nion") == out.get("nion")
+                    and [l[2] for l in fresh["log"] if l[0] == "cx"][:1] == [l[2] for l in out["log"] if l[0] == "cx"][:1])
+            if not same:
+                fresh_fails.append((len(cases) - 1, "live objects after step %d (%s) give code %r radiance %r, a freshly built scene "
+                                    "with the same configuration gives code %r radiance %r"
+                                    % (k, hist["steps"][k]["op"], out["code"], out["radiance"], fresh["code"], fresh["radiance"])))
     ctx.log("implementation ran on %d single-evaluation cases (%d from the corpus) and %d histories (%d evaluations)"
             % (n_single, n_corpus, len(histories), len(cases) - n_single))
 
@@ -523,7 +779,13 @@ def run(ctx):
         diff += [ids[j] for j in failing]
     ctx.obligation("call log: one argument tuple per evaluation, every metastable and every ion evaluated, attenuator "
                    "sampled at the beam point (%d cases)" % len(cases), "correspondence", not log_fails, str(log_fails[:3]))
-    ctx.log("correspondence: %d cases, %d disagree with the model, %d call-log faults" % (len(cases), len(diff), len(log_fails)))
+    ctx.obligation("history evaluations: live objects == freshly built scene with the current configuration, bitwise (%d evaluations)"
+                   % (len(cases) - n_single), "correspondence", not fresh_fails, str(fresh_fails[:3]))
+    api_fails = api_checks(impl)
+    ctx.obligation("second-order call sites of the anchored files: argument validation, unconnected models, container lookups "
+                   "(%d expectations, Python level, not modelled in Coq)" % API_COUNT[0], "correspondence", not api_fails, str(api_fails[:5]))
+    log_fails += fresh_fails + [(0, f) for f in api_fails]
+    ctx.log("correspondence: %d cases, %d disagree with the model, %d call-log / fresh-scene / API faults" % (len(cases), len(diff), len(log_fails)))
 
     # ---- failing-input search (the property itself on the implementation) ---------------------------
     ctx.obligation("executable property on the implementation (%d cases)" % len(cases), "search", not search_fails,
@@ -597,6 +859,24 @@ def run(ctx):
             "receiver_class(cx)": hist([c["receiver_class"] for c in gen if c["kind"] == "cx"]),
             "outcome_codes(0 untouched,1 line,2 RuntimeError,3 ValueError)": hist([o["code"] for o in gouts]),
             "dyadic_inputs": sum(1 for c in gen if c["exact"]),
+            "scaled_by_powers_of_two": sum(1 for c in gen if c.get("scaled")) + sum(1 for h in histories if h["cfg"].get("scaled")),
+            "species_argument_forms": hist([s.get("form", "fn") for c in gen for s in c["species"]]),
+            "numpy_integer_charges": sum(1 for c in gen for s in c["species"] if s.get("charge_np")),
+            "constant_vector_b_field": sum(1 for c in gen if c.get("b_form") == "const"),
+            "composition_given_with_duplicate_keys": sum(1 for c in cases[:n_single] if c.get("species_raw")) +
+                sum(1 for h in histories for st in [h["cfg"]] + h["steps"] if st.get("species_raw")),
+            "composition_iterable_form": hist([c.get("comp_form", "list") for c in cases[:n_single]]),
+            "no_ion_or_empty_composition": sum(1 for c in gen if not any(s["charge"] >= 1 for s in c["species"])),
+            "models_configured_through": hist([c.get("attach", "models") for c in gen if c["kind"] != "plasma"]),
+            "cx_line_shape": hist([c.get("lineshape", "recorder") for c in gen if c["kind"] == "cx"]),
+            "bes_explicit_ratio_arguments": sum(1 for c in gen if c["kind"] == "bes" and c.get("bes_ratios")),
+            "non_contiguous_metastable_labels(cx)": sum(1 for c in gen if c["kind"] == "cx" and
+                                                        sorted(r["m"] for r in c["rates"]) != list(range(1, len(c["rates"]) + 1))),
+            "zero_beam_energy": sum(1 for c in gen if c.get("beam", {}).get("energy") == 0.0),
+            "history_guard_crossings": hist([st["guard"] for h in histories for st in h["steps"] if "guard" in st][::2]),
+            "history_reassign_same": hist([st["what"] for h in histories for st in h["steps"] if st["op"] == "reassign_same"]),
+            "history_ops": hist([st["op"] for h in histories for st in h["steps"]]),
+            "api_expectations": API_COUNT[0],
         },
         "tolerance": {"outcome kind, call counts, sampled points": "exact",
                       "radiance, BeamCXPEC arguments, population / emission coefficient arguments, Z_eff, ion density": "relative 2^-40",
